@@ -80,12 +80,13 @@ SessionClose ==
   /\ sessionOpen' = FALSE /\ closeCount' = closeCount + 1
   /\ UNCHANGED <<phase, mode, connClosed, idleRunning, peerGone, exited>>
 
-\* The server closes its end: at the very end of the teardown, or earlier (a BYE sent because
-\* of an unknown command closes the connection before the session is torn down).
+\* The server closes its end: at the very end of the teardown, or earlier - a BYE sent because of an
+\* unknown command, or Server.Close, close the connection while the serve loop is still running; commands
+\* that were already received may still be executed before the loop notices.
 ConnClose ==
   /\ phase \in {"serving", "teardown"} /\ ~connClosed
-  /\ connClosed' = TRUE /\ phase' = "teardown"
-  /\ UNCHANGED <<mode, sessionOpen, closeCount, idleRunning, peerGone, exited>>
+  /\ connClosed' = TRUE
+  /\ UNCHANGED <<phase, mode, sessionOpen, closeCount, idleRunning, peerGone, exited>>
 
 Exit ==
   /\ phase = "teardown" /\ connClosed /\ ~sessionOpen /\ ~idleRunning /\ ~exited
@@ -100,7 +101,7 @@ Next == Serve \/ Disconnect \/ Teardown
 
 \* once the peer is gone the server makes progress towards the end
 Fairness == /\ WF_vars(Teardown)
-            /\ WF_vars(peerGone /\ BeginTeardown)
+            /\ WF_vars((peerGone \/ connClosed) /\ BeginTeardown)
 
 Spec == Init /\ [][Next]_vars /\ Fairness
 
@@ -110,5 +111,5 @@ CloseAtMostOnce == closeCount <= 1
 DoneMeansClean == phase = "done" => closeCount = 1 /\ connClosed /\ ~idleRunning /\ ~sessionOpen
 NoCallAfterClose == [][~sessionOpen /\ phase # "new" => UNCHANGED sessionOpen]_vars
 \* a served connection whose peer is gone ends cleanly
-CleanupAfterDisconnect == (peerGone /\ phase \in {"serving", "teardown"}) ~> (phase = "done")
+CleanupAfterDisconnect == ((peerGone \/ connClosed) /\ phase \in {"serving", "teardown"}) ~> (phase = "done")
 =============================================================================
